@@ -584,6 +584,9 @@ func runHistory(seed uint64, nfs bool, ops []string, res *hx.Result) (string, in
 		if bad := w.lockedDirs(); len(bad) > 0 {
 			return fmt.Sprintf("after %q returned, the mutex of directory #%v is still held although no call is in progress", op, bad), i
 		}
+		if bad := w.lockedLeaves(); len(bad) > 0 { // leaf.go
+			return fmt.Sprintf("after %q returned, the mutex of file #%v is still held although no call is in progress", op, bad), i
+		}
 	}
 	return "", -1
 }
@@ -783,6 +786,9 @@ func stress(seed uint64, nfs bool, workers, opsPer int, res *hx.Result) string {
 	if bad := w.lockedDirs(); len(bad) > 0 {
 		return fmt.Sprintf("after a concurrent workload (seed %d) finished, the mutex of directory #%v is still held", seed, bad)
 	}
+	if bad := w.lockedLeaves(); len(bad) > 0 {
+		return fmt.Sprintf("after a concurrent workload (seed %d) finished, the mutex of file #%v is still held", seed, bad)
+	}
 	return ""
 }
 
@@ -942,6 +948,7 @@ func main() {
 	// 2b. scenario runs on the real scheduler and IdleInvoker under the same monitor
 	runSchedScenarios(o, res, checkerBad, demonstrated)
 	runIdleScenarios(o, res, checkerBad, demonstrated)
+	runNFSScenarios(o, res, checkerBad, demonstrated)
 	// checker findings that no catalogued call sequence demonstrates
 	for fn, e := range checkerBad {
 		if !demonstrated[fn] {
